@@ -1,5 +1,5 @@
 """C16 — the query parser is total: panic inventory and recursion over the parser's scope."""
-from ..model import sccs
+from ..model import sccs, op_local
 from ..rules import get_body, site, short
 from .. import panics
 
@@ -98,7 +98,38 @@ def r3(rep, prog):
               site=site_)
 
 
+def r4(rep, prog):
+    """a date literal denotes an instant: the instant parsed is the instant handed to DateTime"""
+    R = "C16-R4"
+    rep.rule(R, "date literals keep their instant: at every site where a parsed RFC 3339 text becomes a tantivy DateTime (query parser leaf and range/set bounds, JSON date inference, document values), the OffsetDateTime given to DateTime::from_utc is the result of OffsetDateTime::parse, passed through nothing but `?` / ok / map_err and the instant-preserving to_offset; the sibling sites agree, so a literal with a zone offset selects the documents indexed at that instant")
+    from ..model import provenance
+    PARSE = "time::offset_date_time::OffsetDateTime::parse"
+    KEEP = prog.names(r"^(time::offset_date_time::OffsetDateTime::to_offset|core::result::Result::<T, E>::(map_err|ok)|<core::result::Result<T, E> as core::ops::try_trait::Try>::branch|<core::option::Option<T> as core::ops::try_trait::Try>::branch)$")
+    n = 0
+    for b in prog.bodies.values():
+        if b.kind in ("const", "static", "promoted") or "::tests::" in b.id:
+            continue
+        parses = [bi for bi, t in b.calls() if (t.get("res") or t.get("f") or "") == PARSE]
+        if not parses:
+            continue
+        for bi, t in b.calls():
+            f = t.get("res") or t.get("f") or ""
+            if not f.endswith("datetime::DateTime::from_utc"):
+                continue
+            l = op_local(t["args"][0])
+            lv = provenance(b, l, extra_transparent=KEEP) if l is not None else set()
+            calls = sorted({x[1] for x in lv if x[0] == "call"})
+            n += 1
+            other = [c for c in calls if c != PARSE]
+            rep.check(PARSE in calls and not other, R, "date literal in %s" % short(b.id), "from_utc(parse(text)) through `?`/ok/map_err/to_offset only",
+                      "`%s` gives DateTime::from_utc a value that went through %s after OffsetDateTime::parse: a call that is not the instant-preserving to_offset can move the instant the literal denotes "
+                      "(replace_offset keeps the wall-clock fields and swaps the zone: `10:00+02:00` becomes `10:00Z` instead of `08:00Z`), so the query bound and the indexed value of the same text disagree" % (b.id, [short(c) for c in other] or "an untraceable definition"),
+                      site=site(b, bi))
+    rep.floor(R, "RFC 3339 text to DateTime conversion sites", n, 6)
+
+
 def run(rep, prog, tier):
+    r4(rep, prog)
     rep.rule("C16-R1", "panic inventory: every panicking construct (explicit panic/assert/unreachable, unwrap/expect, indexing/slicing and panicking std APIs, arithmetic overflow/division asserts) in bodies of the parser's source files reachable from parse_query / parse_query_lenient / QueryParser entry points equals the frozen, individually reasoned table (keyed by function + kind + count, no line numbers)")
     rep.rule("C16-R2", "recursion: every cycle (SCC) of the parser scope's call graph needs a recorded depth bound; cycles driven by input nesting without a bound are findings")
     rep.not_decided += ["that the parsed query means what the grammar says", "strict / lenient agreement (semantic)", "panics inside tokenizers, Term builders, date/ip parsing called from the parser (outside the scope, trusted)"]
